@@ -5317,7 +5317,7 @@ class Device(utils.CompositeEventEmitter):
                     connection_handle=connection.handle
                 )
             )
-            return await read_feature_future
+            return await connection.cancel_on_disconnection(read_feature_future)
 
     async def get_remote_classic_features(
         self, connection: Connection
